@@ -35,6 +35,16 @@ impl SizeEntry {
             });
         }
 
+        // The esize field is esize_bytes wide: a larger value would be written
+        // truncated, and the file would fail the total_size check on parse
+        let esize_bytes = header.esize_bytes();
+        if esize_bytes < 8 && self.esize >> (8 * u32::from(esize_bytes)) != 0 {
+            return Err(crate::size::error::SizeError::EsizeTooLarge {
+                esize: self.esize,
+                esize_bytes,
+            });
+        }
+
         Ok(())
     }
 
@@ -107,6 +117,32 @@ mod tests {
 
     fn v2_header() -> SizeHeader {
         SizeHeader::new_v2(9, 1, 0, 0)
+    }
+
+    #[test]
+    fn test_validate_esize_width() {
+        // 1-byte esize field: 255 fits, 256 would be written as 0
+        let header = v1_header(1);
+        assert!(SizeEntry::new(vec![0xAB; 9], 255).validate(&header).is_ok());
+        assert!(matches!(
+            SizeEntry::new(vec![0xAB; 9], 256).validate(&header),
+            Err(crate::size::error::SizeError::EsizeTooLarge {
+                esize: 256,
+                esize_bytes: 1
+            })
+        ));
+        // V2: fixed 4-byte field
+        assert!(
+            SizeEntry::new(vec![0xAB; 9], 1 << 32)
+                .validate(&v2_header())
+                .is_err()
+        );
+        // 8-byte field holds every u64
+        assert!(
+            SizeEntry::new(vec![0xAB; 9], u64::MAX)
+                .validate(&v1_header(8))
+                .is_ok()
+        );
     }
 
     #[test]
